@@ -31,7 +31,8 @@ geometry; thorough tier: the full product.
 background, threshold / convolved-data / gain maps, kernels, weights,
 footprints, masks and coverage masks, coordinate / radius / label arrays: the
 "companion slots" the recipe registers with the context, listed per recipe under
-coverage.companion_slots -- is singled out in turn: the image and all other
+the counters "companion slot | recipe | slot | representations" of the
+evidence -- is singled out in turn: the image and all other
 arguments are plain C-contiguous ndarrays, the slot alone is handed over as a
 MaskedArray that owns a real mask array with True pixels (two-dimensional float
 arrays; thorough also: a real all-False mask array) or as a non-contiguous view
@@ -121,7 +122,7 @@ RULE = ('full Cartesian product: every registry recipe (one per public entry poi
         '(did not raise) -- steps that raise are still checked; distinct = distinct (step label, representation, condition, '
         'mask form, geometry).  ONE COMPANION AT A TIME: for every recipe, every other array argument it registers (companion '
         'slot: error, background, threshold / convolved / gain maps, kernels, weights, footprints, masks, coverage masks, '
-        'coordinate / radius / label arrays; coverage.companion_slots) x companion representation {MaskedArray owning a real '
+        'coordinate / radius / label arrays; coverage.counters "companion slot | ...") x companion representation {MaskedArray owning a real '
         'mask array with True pixels [2-D float arrays], non-contiguous strided view of a larger watched array [every slot]; '
         'thorough also MaskedArray with a real all-False mask} with the image and all other arguments plain ndarrays x data '
         'condition (quick: negatives, nonfinite, nonfinite_error, masked; thorough: all six) x geometry (quick: base; thorough: '
@@ -152,7 +153,7 @@ ASSUMPTIONS = ['numpy / astropy containers report their own state faithfully (to
                '"ma_error"); quick tier: base geometry, mask form "cond", the four conditions with bad pixels -- an aliasing of '
                'a companion that needs a clean integer image or another geometry is reached in the thorough tier only; '
                'MaskedArray companions carry two masked pixels at fixed generic places; companion slots are the array '
-               'arguments the recipes hand out through the context (coverage.companion_slots): tuples, lists and scalars '
+               'arguments the recipes hand out through the context (counters "companion slot | ..."): tuples, lists and scalars '
                'are watched but have one representation',
                'table forms are enumerated on the clean scene (plain and Quantity data); with the other representations / '
                'conditions / geometries only the baseline table and the minimal canonical table are passed; column-name '
@@ -291,7 +292,10 @@ def run_combo(acc, name, rep, cond, mf, seed, sample=False, geom='base'):
         if not c.comp_applied:
             acc.skip('companion slot not handed out in this combination')
             return None
-        acc.counters['companion runs: ' + rep.split(':')[1]] += 1
+        _, kind, slot = rep.split(':', 2)
+        acc.counters['companion runs: ' + kind] += 1
+        info = companion_slots(name, geom, seed).get(slot, {})
+        acc.counters[f'companion slot | {name} | {slot} | {"MaskedArray kinds + strided view" if info.get("kinds") == "all" else "strided view"}'] += 1
         unknown = set(c.array_slots) - set(companion_slots(name, geom, seed))
         if unknown:      # (the discovery run leaves the C10-only steps out: a slot registered by one of them must not go unnoticed)
             raise AssertionError(f'recipe {name!r}: companion slots {sorted(unknown)} are not found by companion_slots()')
@@ -391,16 +395,6 @@ def describe(tier, seed):
         if len(gg) > 1:
             by_alphabet.setdefault(' | '.join(gg) if len(gg) < 12 else f'base + {len(gg) - 1} Background2D box layouts', []).append(r.name)
     from ..ref import registry_recipes as RR
-    slots = {}
-    ncomp = 0
-    for r in R.RECIPES.values():
-        if (r.slow and tier != 'thorough') or not r.companions:
-            continue
-        sl = companion_slots(r.name, 'base', seed)
-        if sl:
-            slots[r.name] = {k: ('MaskedArray kinds + strided view' if v['kinds'] == 'all' else 'strided view')
-                             + (' (where the condition has a mask argument)' if v['mask'] else '') for k, v in sl.items()}
-        ncomp += len(companion_combos(r, tier, seed)) if tier != 'thorough' else 0
     tables = {'init_params conventions (x, y, flux)': {k: list(v) for k, v in RR.INIT_NAMES.items()},
               'init_params optional columns (every subset)': list(RR.INIT_OPTIONAL),
               'init_params forms: PSFPhotometry, plain data': len(RR.init_table_forms(False)),
@@ -412,10 +406,15 @@ def describe(tier, seed):
               'catalogue columns (every subset giving a position)': ['id', 'x + y', 'skycoord', 'extra column'],
               'table classes': ['QTable', 'Table'],
               'snapshot': 'class, column order, per column values / dtype / shape / unit / column class / mask / info, meta'}
-    return {'companion_slots': slots,
-            'companion_axis': {'representations': list(companion_kinds(tier)), 'conditions': list(companion_conditions(tier)),
+    return {'companion_axis': {'representations': {'ma': 'MaskedArray owning a real mask array with two True pixels (2-D float arrays)',
+                                                   'ma_empty': 'MaskedArray owning a real all-False mask array (2-D float arrays)',
+                                                   'strided': 'every second element along each axis of a larger watched array (every slot)'},
+                               'representations_enumerated': list(companion_kinds(tier)),
+                               'conditions': list(companion_conditions(tier)),
                                'geometries': 'all of the recipe' if tier == 'thorough' else ['base'],
-                               'runs': ncomp if tier != 'thorough' else 'counters: companion runs'},
+                               'slots': 'counters "companion slot | <recipe> | <slot> | <representations>": number of runs '
+                                        '(the slots are found by executing the recipe; a mask slot is not run where the '
+                                        'condition has no mask argument)'},
             'table_forms': tables,
             'alphabet': {'recipes': len(R.RECIPES), 'representations': list(reps(tier)), 'conditions': list(R.CONDITIONS),
                          'mask_forms': list(maskforms(tier)) + ([f'{mf} x {cond} (base geometry)' for mf, cond in QUICK_EXTRA_MASKFORMS]
